@@ -30,13 +30,16 @@ type PropSpec struct {
 	NotCovered     []string   `json:"not_covered"`
 	Bounded        []string   `json:"bounded"` // names of bounded stand-ins (run by the thorough tier)
 	Exclude        []string   `json:"exclude_classes"`
+	NoInv          bool       `json:"no_invariants"`
+	SkipInv        []string   `json:"skip_invariants"`
 	standinReports []map[string]any
 }
 
 type PropFunc struct {
-	Func    string   `json:"func"`    // function key or prefix* pattern
-	Mode    string   `json:"mode"`    // contract | sweep | frame
-	Classes []string `json:"classes"` // obligation classes that count for this property (empty: all)
+	Func    string   `json:"func"`          // function key or prefix* pattern
+	Mode    string   `json:"mode"`          // contract | sweep | frame
+	Classes []string `json:"classes"`       // obligation classes that count for this property (empty: all)
+	NoInv   bool     `json:"no_invariants"` // do not assume the declared type invariants (C10: well-formedness is the question)
 }
 
 type Finding struct {
@@ -206,7 +209,7 @@ func cmdCheck(args []string) {
 				continue
 			}
 			seenFn[fn] = en.Mode
-			u := e.verify(fn, VerifyOpts{SweepOnly: en.Mode == "sweep", Frame: en.Mode == "frame"})
+			u := e.verify(fn, VerifyOpts{SweepOnly: en.Mode == "sweep", Frame: en.Mode == "frame", NoInv: en.NoInv || spec.NoInv, SkipInv: spec.SkipInv})
 			r := &unitReport{u: u, entry: en}
 			var keep []*Obl
 			for _, o := range u.obls {
